@@ -1,5 +1,6 @@
 From Coq Require Extraction ExtrOcamlBasic.
-From OxiVerif Require Import Base.Conv DD.Table DD.TableExtra DD.Sem DD.Build DD.Apply Mgr.Oom.
+From OxiVerif Require Import Base.Conv DD.Table DD.TableExtra DD.Sem DD.Build DD.Apply Mgr.Oom
+  Mgr.Conc Mgr.OomOwn Mgr.OomOwnTie.
 Extraction Language OCaml.
 Extraction "model.ml" conv_anchor
   Table.sem_edge Table.wf_b TableExtra.wf_full_b Table.rc_exact_b Table.no_dead_b
@@ -7,4 +8,6 @@ Extraction "model.ml" conv_anchor
   Sem.eval_bop
   Apply.bdd_ok_b Apply.mk_var
   Oom.node_count Oom.get_or_insert_cap Oom.mk_node_cap Oom.mk_var_cap
-  Oom.not_nc Oom.bin_nc Oom.ite_nc Oom.res_code Oom.res_snap Oom.res_ref.
+  Oom.not_nc Oom.bin_nc Oom.ite_nc Oom.res_code Oom.res_snap Oom.res_ref
+  Table.find_node OomOwn.ores_code OomOwnTie.own_inv_b OomOwnTie.own_not OomOwnTie.own_bin OomOwnTie.own_ite
+  OomOwnTie.own_snap OomOwnTie.own_tokens OomOwnTie.snap_tokens.
